@@ -23,7 +23,7 @@ BASE_WORDS = [
 ]
 FILE_NAMES = [
     "api.one", "api.two", "malware", "Label With Space", "\u03b4.label", "UPPER", "x.string", "a", "b.c.d",
-    "network.string", "caf\u00e9", "k_w", "0", "api.kernel32", "shell.cmd",
+    "network.string", "caf\u00e9", "k_w", "0", "api.kernel32", "shell.cmd", ".hidden", "words.txt", "backup~",
 ]
 DIR_NAMES = ["sub", "api", "d.e", "\u00fcber", "x y", "n2"]
 
@@ -436,9 +436,10 @@ def gen_c09(seed, shipped, tier="quick"):
     cli_keys = []
     if cli_ok and rng.random() < 0.5:
         cli_keys.append([rng.choice(["json", "default", "default", "replace"]), rng.randrange(ncorp)])
-    nworlds = rng.choice([2, 3, 3, 4])
+    thorough = tier == "thorough"
+    nworlds = rng.choice([2, 3, 3, 4, 5] if thorough else [2, 3, 3, 4])
     worlds = []
-    h0 = rng.choice([0, 1, rng.randrange(1 << 32)])
+    h0 = 0 if thorough and rng.random() < 0.5 else rng.choice([0, 1, rng.randrange(1 << 32)])
     pristine_ops = [["new", "s0"]] + [["scan", "s0", i, d] for i, d in keys] + [["cli", m, "stdin", i] for m, i in cli_keys]
     worlds.append({"hashseed": h0, "enum_seed": 0, "io_seed": 0, "env_seed": 0, "io": {"chunk": "full"}, "env": {"LC_ALL": None, "opt": ""}, "ops": pristine_ops})
     if variants:
@@ -450,7 +451,7 @@ def gen_c09(seed, shipped, tier="quick"):
         e = rng.choice([0, rng.randrange(1, 1 << 30), rng.randrange(1, 1 << 30), rng.randrange(1, 1 << 30)])
         ops = [["new", "s0"]]
         scanners = ["s0"]
-        nops = rng.randint(1, 10)
+        nops = rng.randint(1, 16 if thorough else 10)
         nres = 0
         for _ in range(nops):
             r = rng.random()
@@ -465,7 +466,7 @@ def gen_c09(seed, shipped, tier="quick"):
             elif r < 0.44:
                 ops.append(["scan_fresh", s, i, d])
             elif r < 0.62:
-                nt = rng.choice([2, 2, 3, 4])
+                nt = rng.choice([2, 2, 3, 4, 5, 6] if thorough else [2, 2, 3, 4])
                 jobs = [list(rng.choice(keys)) for _ in range(nt)]
                 if rng.random() < 0.4:
                     jobs = [list(jobs[0]) for _ in range(nt)]  # same input in every thread
